@@ -265,6 +265,9 @@ func isAggregate(t types.Type) bool {
 }
 
 func (x *Exec) store(c *Cell, v Value) {
+	if x.spec > 0 && c.ID <= x.specMark[len(x.specMark)-1] {
+		panic(specAbort{"store to older memory inside a speculated block"})
+	}
 	if n := len(x.mergeMark); n > 0 && c.ID <= x.mergeMark[n-1] {
 		panic(mergeAbort{"write to memory older than the merged call"})
 	}
